@@ -71,6 +71,12 @@ type fixedProg struct {
 	noHistory bool
 }
 
+func slowRepo(name string, sizes [][]int) fixedProg {
+	p := repo(name, sizes)
+	p.slow = true
+	return p
+}
+
 func repo(name string, sizes [][]int) fixedProg {
 	return fixedProg{Case: Case{Kind: "repo", Name: name, Sizes: sizes}}
 }
@@ -90,13 +96,13 @@ func fixedPrograms(thorough bool) []fixedProg {
 		repo("testsuite/bytes/compare.mpcl", [][]int{{64}, {64}}),
 		repo("testsuite/bytes/has_prefix.mpcl", [][]int{{64}, {32}}),
 		repo("apps/garbled/examples/add.mpcl", nil),
-		repo("apps/garbled/examples/div.mpcl", nil),
+		slowRepo("apps/garbled/examples/div.mpcl", nil),
 		repo("apps/garbled/examples/hamming.mpcl", nil),
-		repo("apps/garbled/examples/key-import.mpcl", nil),
+		slowRepo("apps/garbled/examples/key-import.mpcl", nil),
 		repo("apps/garbled/examples/credit.mpcl", nil),
 		repo("apps/garbled/examples/rps.mpcl", nil),
-		repo("testsuite/crypto/sha1.mpcl", [][]int{{64}, {64}}),
-		repo("apps/garbled/examples/aesblock2.mpcl", nil),
+		slowRepo("testsuite/crypto/sha1.mpcl", [][]int{{64}, {64}}),
+		slowRepo("apps/garbled/examples/aesblock2.mpcl", nil),
 		lib("hex+aes", `package main
 
 import (
